@@ -260,6 +260,9 @@ TextStep(k, rec) ==
        \* QRCode::print: what reaches standard output is the text rendering followed by one line terminator
        /\ ("printed" \in DOMAIN rec =>
              Require(rec.printed = rec.lines \o << <<>> >>, k, rec, "C16", "print() writes something other than the text rendering and a newline"))
+       \* the same with standard output bound to a terminal (a pseudo-terminal in raw mode): what the user sees is that rendering, nothing else
+       /\ ("printed_tty" \in DOMAIN rec =>
+             Require(rec.printed_tty = rec.lines \o << <<>> >>, k, rec, "C16", "print() to a terminal writes something other than the text rendering and a newline"))
 
 FrameChecks(k, rec, reg, o, n, prop) ==
   IF ~reg.hasImage THEN TRUE
